@@ -9,6 +9,7 @@
 #include <stdlib.h>
 
 typedef _Bool nbool;
+#define bool _Bool
 #define true 1
 #define false 0
 #define nullptr 0
